@@ -35,7 +35,7 @@ enum Probe
 	P_KIND0,
 	P_NPROBES = P_KIND0 + 9
 };
-const char* PROBE_NAMES[] = {"sampler_ops", "replay_from_state_checks", "poisson_mean_above_500", "poisson_mean_above_1000", "metropolis_candidate_outside_domain", "rejection_loop_10_or_more_iterations", "rejection_inefficiency_warning_branch", "fault_generator_edge_seed(0,1,5489,2^32-1)", "fault_generator_discard", "op_started_from_used_generator_state", "metropolis_grid_triples", "law_pools", "law_samples", "law_interleaved_intruder_calls", "vector_poisson_ops", "kind_uniform", "kind_gauss", "kind_poisson", "kind_inverse_transform", "kind_rejection", "kind_rejection_2d", "kind_metropolis", "kind_metropolis_2d", "kind_vector_poisson"};
+const char* PROBE_NAMES[] = {"sampler_ops", "replay_from_state_checks", "poisson_mean_above_500", "poisson_mean_above_1000", "metropolis_bounded_domain_calls", "rejection_loop_10_or_more_iterations", "rejection_inefficiency_warning_branch", "fault_generator_edge_seed(0,1,5489,2^32-1)", "fault_generator_discard", "op_started_from_used_generator_state", "metropolis_grid_triples", "law_pools", "law_samples", "law_interleaved_intruder_calls", "vector_poisson_ops", "kind_uniform", "kind_gauss", "kind_poisson", "kind_inverse_transform", "kind_rejection", "kind_rejection_2d", "kind_metropolis", "kind_metropolis_2d", "kind_vector_poisson"};
 enum Metric
 {
 	M_DKW,	 // worst D / bound
@@ -375,8 +375,8 @@ struct Exec
 			ctx.probe(P_REJ_ITER10);
 		if(c1.rej_iters >= 1000)
 			ctx.probe(P_REJ_WARN);
-		if(c1.metro_outside)
-			ctx.probe(P_METRO_OUTSIDE_CAND, c1.metro_outside);
+		if((s.kind == 6 || s.kind == 7) && s.bounded)
+			ctx.probe(P_METRO_OUTSIDE_CAND);
 		if(s.kind == 8)
 			ctx.probe(P_VPOISSON);
 		fresh_state = false;
